@@ -94,6 +94,7 @@ type Config struct {
 	IV      []byte // 8 or 16 bytes
 	KID     []byte // 16 bytes
 	Pssh    bool   // pass a pssh box to InitProtect
+	PsshN   int    // number of pssh boxes passed when Pssh is set (0 = 1)
 	KeyKind string
 	IVKind  string
 }
@@ -153,12 +154,30 @@ func GenConfig(r *runner.Rand) Config {
 	return c
 }
 
-// PsshBytes returns the encoded pssh box handed to the encryptor.
+// NPssh is the number of pssh boxes handed to the encryptor.
+func (c Config) NPssh() int {
+	switch {
+	case !c.Pssh:
+		return 0
+	case c.PsshN > 1:
+		return c.PsshN
+	}
+	return 1
+}
+
+// PsshBytes returns the encoded pssh box(es) handed to the encryptor: the
+// first one a version-1 box with the KID, further ones version-0 boxes of
+// other systems.
 func PsshBytes(cfg Config) []byte {
 	p, _ := mp4.NewPsshBox("edef8ba979d64acea3c827dcd51d21ed", []string{hex.EncodeToString(cfg.KID)}, nil)
 	p.Data = []byte{0x08, 0x01, 0x12, 0x10, 1, 2, 3, 4, 5, 6, 7, 8, 9, 10, 11, 12, 13, 14, 15, 16}
 	var buf bytes.Buffer
 	_ = p.Encode(&buf)
+	for i := 1; i < cfg.NPssh(); i++ {
+		q, _ := mp4.NewPsshBox([]string{"9a04f07998404286ab92e65be0885f95", "1077efecc0b24d02ace33c1e52e2fb4b"}[(i-1)%2], nil, nil)
+		q.Data = append([]byte{byte(i)}, cfg.KID[:4+i%8]...)
+		_ = q.Encode(&buf)
+	}
 	return buf.Bytes()
 }
 
